@@ -42,25 +42,35 @@ void ares_cancel(ares_channel_t *channel)
   if (ares_llist_len(channel->all_queries) > 0) {
     ares_llist_node_t *node = NULL;
 
-    /* Swap list heads, so that only those queries which were present on entry
-     * into this function are cancelled. New queries added by callbacks of
-     * queries being cancelled will not be cancelled themselves.
-     */
-    ares_llist_t      *list_copy = channel->all_queries;
-    channel->all_queries         = ares_llist_create(NULL);
-
-    /* Out of memory, this function doesn't return a result code though so we
-     * can't report to caller */
-    if (channel->all_queries == NULL) {
-      channel->all_queries = list_copy; /* LCOV_EXCL_LINE: OutOfMemory */
-      goto done;                        /* LCOV_EXCL_LINE: OutOfMemory */
+    /* Mark the queries which are present on entry into this function, only
+     * those are cancelled. New queries added by callbacks of queries being
+     * cancelled are not marked and will not be cancelled themselves.  This
+     * needs no memory, so cancelling can not fail (this function has no way
+     * to report a failure). */
+    for (node = ares_llist_node_first(channel->all_queries); node != NULL;
+         node = ares_llist_node_next(node)) {
+      ares_query_t *query   = ares_llist_node_val(node);
+      query->cancel_pending = ARES_TRUE;
     }
 
     /* Always restart from the head: a callback may start a query whose
      * failure completes (and unlinks) other queries still waiting in this
-     * list, so a cached 'next' node may no longer exist. */
-    while ((node = ares_llist_node_first(list_copy)) != NULL) {
-      ares_query_t *query;
+     * list, so a cached 'next' node may no longer exist.  New queries are
+     * appended, so the marked ones are found at the head. */
+    while (1) {
+      ares_query_t *query = NULL;
+
+      for (node = ares_llist_node_first(channel->all_queries); node != NULL;
+           node = ares_llist_node_next(node)) {
+        query = ares_llist_node_val(node);
+        if (query->cancel_pending) {
+          break;
+        }
+      }
+
+      if (node == NULL) {
+        break;
+      }
 
       query                   = ares_llist_node_claim(node);
       query->node_all_queries = NULL;
@@ -74,8 +84,6 @@ void ares_cancel(ares_channel_t *channel)
       query->callback(query->arg, ARES_ECANCELLED, 0, NULL);
       ares_free_query(query);
     }
-
-    ares_llist_destroy(list_copy);
   }
 
   /* See if the connections should be cleaned up */
@@ -83,6 +91,5 @@ void ares_cancel(ares_channel_t *channel)
 
   ares_queue_notify_empty(channel);
 
-done:
   ares_channel_unlock(channel);
 }
